@@ -203,9 +203,9 @@ Fixpoint split_slash (s : str) : list str :=
   end.
 
 (* one of the four numbers of a clue: (value, rest of the text) *)
-Definition compass_num (s : str) : res (Z * str) :=
+Definition compass_num_raw (s : str) : res (Z * str) :=
   match s with
-  | [] => Err IndexError                                    (* body[i] past the end *)
+  | [] => Err ValueError                                    (* truncated clue *)
   | c :: t =>
       if ascii_eqb c "-"%char then
         let* v := py_int (firstn 2 t) 16 in Ok (v, skipn 2 t)
@@ -215,26 +215,30 @@ Definition compass_num (s : str) : res (Z * str) :=
       else let* v := py_int [c] 16 in Ok (v, t)
   end.
 
+Definition compass_num (s : str) : res (Z * str) :=
+  let* '(v, t) := compass_num_raw s in
+  if v <? -1 then Err ValueError else Ok (v, t).            (* negative clue number *)
+
 Definition ord_f : Z := 102.
 Definition ord_g : Z := 103.
 
 (* the while loop of parse_puzz_link_url; s = body[i:] *)
-Fixpoint compass_parse_loop (fuel : nat) (width : Z) (s : str) (pos : Z) : res (list clue) :=
+Fixpoint compass_parse_loop (fuel : nat) (height width : Z) (s : str) (pos : Z) : res (list clue) :=
   match fuel with
   | O => Err OtherError
   | S f =>
       match s with
       | [] => Ok []
       | c :: t =>
-          if ord_g <=? ord c then compass_parse_loop f width t (pos + (ord c - ord_f))
+          if ord_g <=? ord c then compass_parse_loop f height width t (pos + (ord c - ord_f))
           else
             let* '(n0, s0) := compass_num s in
             let* '(n1, s1) := compass_num s0 in
             let* '(n2, s2) := compass_num s1 in
             let* '(n3, s3) := compass_num s2 in
-            if width =? 0 then Err OtherError               (* ZeroDivisionError *)
+            if (width <=? 0) || (height * width <=? pos) then Err ValueError   (* clue outside the board *)
             else
-              let* rest := compass_parse_loop f width s3 (pos + 1) in
+              let* rest := compass_parse_loop f height width s3 (pos + 1) in
               Ok ((pos / width, pos mod width, (n0, n2, n1, n3)) :: rest)
       end
   end.
@@ -244,9 +248,9 @@ Definition parse_puzz_link_url (url : str) : res (Z * Z * list clue) :=
   let parts := split_slash url in
   match skipn (length parts - 3) parts with
   | [ws; hs; body] =>
-      let* width := py_int ws 10 in
       let* height := py_int hs 10 in
-      let* clues := compass_parse_loop (S (length body)) width body 0 in
+      let* width := py_int ws 10 in
+      let* clues := compass_parse_loop (S (length body)) height width body 0 in
       Ok (height, width, clues)
   | _ => Err ValueError                                     (* not enough values to unpack *)
   end.
